@@ -41,6 +41,7 @@ func c02FailingOps() []failOp {
 		{cause: "dangling-strong-map", op: opInsert("R", uR[1], rm.Row{"name": str("dangling"), "smap": rm.MapOf(rm.S("k"), rm.U(ghost))}), commitTime: true},
 		{cause: "delete-referenced", op: rm.Op{Op: "delete", Table: "N1"}, commitTime: true},
 		{cause: "duplicate-index", op: opInsert("N2", uu("b", 7), rm.Row{"name": str("b")}), commitTime: true},
+		{cause: "duplicate-index-root-table", op: opInsert("PR", uu("4", 9), rm.Row{"name": str("peer")}), commitTime: true},
 		{cause: "duplicate-index-2", op: opInsert("N2", uu("b", 8), rm.Row{"name": str("bb1")}), commitTime: true},
 		{cause: "duplicate-uuid-name", raw: `{"op":"insert","table":"R","row":{"name":"n1"},"uuid-name":"dup","uuid":"10000000-0000-0000-0000-000000000005"},{"op":"insert","table":"R","row":{"name":"n2"},"uuid-name":"dup","uuid":"10000000-0000-0000-0000-000000000006"}`},
 		{cause: "existing-uuid", op: opInsert("R", uR[0], rm.Row{"name": str("again")})},
